@@ -50,12 +50,35 @@ def spawner_bodies(ctx):
 
 
 def file_spawner(ctx):
-    """the function whose task closure calls preprocess"""
-    for b, bb, t, cl in spawner_bodies(ctx):
-        if cl and calls_to(cl, ROLE["preprocess"]):
-            return b, bb, cl
-    ctx.anchor_missing("a ThreadPool::execute task closure calling preprocess")
-    return None, None, None
+    """(execute_file body, a spawn block in it, the task closure that calls preprocess).
+    The spawn may be direct or through an extracted helper (calls_reaching)."""
+    cl = None
+    for b, bb, t, c in spawner_bodies(ctx):
+        if c and calls_to(c, ROLE["preprocess"]):
+            cl = c
+    if cl is None:
+        ctx.anchor_missing("a ThreadPool::execute task closure calling preprocess")
+        return None, None, None
+    ef = body(ctx, "execute_file")
+    if ef is None:
+        return None, None, None
+    sp = file_spawn_sites(ctx, ef)
+    if not sp:
+        ctx.anchor_missing("spawn of the preprocessing task reachable from execute_file")
+        return None, None, None
+    return ef, sp[0][0], cl
+
+
+def file_spawn_sites(ctx, ef):
+    def is_pp_task(b, t):
+        c = t["arg_tys"][1].get("closure") if len(t.get("arg_tys", [])) > 1 else None
+        cb = ctx.lib.bodies.get(c) if c else None
+        return cb is not None and bool(calls_to(cb, ROLE["preprocess"]))
+    return calls_reaching(ctx.lib, ef, POOL_EXEC, arg_check=is_pp_task)
+
+
+def _const1(b, t):
+    return len(t["args"]) > 1 and C.op_const(t["args"][1]) == "1_usize"
 
 
 # ------------------------------------------------------------------ C02
@@ -311,32 +334,32 @@ def r03_1(ctx):
 @rule("C03", "R03.2", floor=2)
 def r03_2(ctx):
     lib = ctx.lib
-    for sb, sbb, t, cl in spawner_bodies(ctx):
-        if cl is None or not calls_to(cl, ROLE["preprocess"]):
-            continue
-        adds = [(bb, at) for bb, at in calls_to(sb, ROLE["progress_add_total"]) if C.op_const(at["args"][1]) == "1_usize"]
-        if not adds:
-            ctx.violation([sb.name, "no-add-total"], "a preprocessing task is spawned without Progress::add_total(1)", site=ctx.site(sb, sbb))
-            continue
-        cut = set()
-        for bb, at in adds:
-            cut |= {eid for eid, s, lab in sb.edges(bb)}
+    ef, _, cl = file_spawner(ctx)
+    if not ef:
+        return
+    sb = ef
+    spawns = file_spawn_sites(ctx, sb)
+    adds = calls_reaching(lib, sb, ROLE["progress_add_total"], arg_check=_const1)
+    if not adds:
+        ctx.violation([sb.name, "no-add-total"], "a preprocessing task is spawned without Progress::add_total(1)", site=ctx.site(sb, spawns[0][0]))
+        return
+    cut = out_edges(sb, [bb for bb, t, how in adds])
+    for sbb, st, how in spawns:
         if C.guarded(sb, sbb, cut):
             ctx.ok("spawn preceded by add_total(1)", site=ctx.site(sb, sbb))
         else:
             ctx.violation([sb.name, "spawn-uncounted"], "a task can be spawned on a path that does not count it in the total "
                           "(the loop could exit before it reports)", site=ctx.site(sb, sbb), witness=C.witness(sb, sbb, cut))
-        # after counting, every Ok return passes the spawn
-        spawn_cut = {eid for eid, s, lab in sb.edges(sbb)}
-        after = set()
-        for bb, at in adds:
-            after |= sb.reachable(bb)
-        bad = [o for o in ok_sites(sb) if o in after and o in sb.reachable(adds[0][0], cut=spawn_cut)]
-        if bad:
-            ctx.violation([sb.name, "counted-not-spawned"], "after add_total(1) the function can return Ok without spawning the task "
-                          "(done never reaches total: the run would hang)", site=ctx.site(sb, bad[0]))
-        else:
-            ctx.ok("no Ok return between add_total(1) and the spawn", site=ctx.site(sb, sbb))
+    # after counting, every Ok return passes the spawn
+    spawn_cut = out_edges(sb, [bb for bb, t, how in spawns])
+    bad = []
+    for abb, at, how in adds:
+        bad += [o for o in ok_sites(sb) if o in sb.reachable(abb, cut=spawn_cut)]
+    if bad:
+        ctx.violation([sb.name, "counted-not-spawned"], "after add_total(1) the function can return Ok without spawning the task "
+                      "(done never reaches total: the run would hang)", site=ctx.site(sb, bad[0]))
+    else:
+        ctx.ok("no Ok return between add_total(1) and the spawn", site=ctx.site(sb, spawns[0][0]))
     # directory tasks: counted by add_total(subdirs.len()) at the call sites (value-level pairing: not decided)
 
 
@@ -347,7 +370,7 @@ def r03_3(ctx):
     if not b:
         return
     recv_ok = enum_edges(b, lib, "std::result::Result", lambda vs: vs == {"Ok"}, src_pred=lambda c: has_call(c.src, TRY_RECV))
-    dones = [(bb, t) for bb, t in calls_to(b, ROLE["progress_add_done"]) if C.op_const(t["args"][1]) == "1_usize"]
+    dones = [(bb, t) for bb, t, how in calls_reaching(lib, b, ROLE["progress_add_done"], arg_check=_const1)]
     if not recv_ok or not dones:
         ctx.anchor_missing("try_recv Ok edge / add_done(1) in the coordinator loop")
         return
@@ -398,23 +421,33 @@ def r03_4(ctx):
 @rule("C03", "R03.5", floor=1)
 def r03_5(ctx):
     lib = ctx.lib
-    ef, spawn_bb, cl = file_spawner(ctx)
+    ef, _, cl = file_spawner(ctx)
     if not ef:
         return
     pidx = ef.param_index_by_name("is_first_pass")
-    ins_true = bool_call_edges(ef, lib, "std::collections::HashSet::<T, S, A>::insert", True,
-                               arg_pred=lambda t: has_field(C.trace(ef, t["args"][0]), "files"))
+    is_files = lambda t: has_field(C.trace(ef, t["args"][0]), "files")
+    key_is_file = lambda t: has_param(C.trace(ef, t["args"][1], transparent=lambda tt: C.is_transparent(tt, ABSPATH_VIEWS)), ef, "file")
+    ins_true = bool_call_edges(ef, lib, "std::collections::HashSet::<T, S, A>::insert", True, arg_pred=lambda t: is_files(t) and key_is_file(t))
+    not_there = bool_call_edges(ef, lib, "std::collections::HashSet::<T, S, A>::contains", False, arg_pred=lambda t: is_files(t) and key_is_file(t))
     not_first = C.guard_edges(ef, lib, lambda c, v, leaf: c.kind == "bool" and leaf is not None and leaf.kind == "param"
                               and leaf.data == pidx and v is False)
-    if ins_true and not_first and C.guarded(ef, spawn_bb, ins_true | not_first):
-        ctx.ok("first-pass spawn guarded by files.insert(..) == true", site=ctx.site(ef, spawn_bb))
-    else:
-        ctx.violation(["no-dedup"], "a first-pass task can be spawned for a file that is already in the build set (the file would be processed "
-                      "twice: commands run twice)", site=ctx.site(ef, spawn_bb), witness=C.witness(ef, spawn_bb, ins_true | not_first))
+    inserts = [(bb, t) for bb, t in calls_to(ef, "std::collections::HashSet::<T, S, A>::insert") if is_files(t)]
+    for sbb, st, how in file_spawn_sites(ctx, ef):
+        ok = False
+        if ins_true and not_first and C.guarded(ef, sbb, ins_true | not_first):
+            ok = True
+        # `if files.contains(f) { return } files.insert(f)`: not-contained edge, and the insert lies on every first-pass path
+        if not ok and not_there and not_first and C.guarded(ef, sbb, not_there | not_first) and inserts and \
+                C.guarded(ef, sbb, out_edges(ef, [bb for bb, t in inserts]) | not_first):
+            ok = True
+        if ok:
+            ctx.ok("first-pass spawn guarded by the file not being in the build set yet", site=ctx.site(ef, sbb))
+        else:
+            ctx.violation(["no-dedup"], "a first-pass task can be spawned for a file that is already in the build set (the file would be processed "
+                          "twice: commands run twice)", site=ctx.site(ef, sbb), witness=C.witness(ef, sbb, ins_true | not_first))
     # the inserted key is the file being spawned
-    for bb, t in calls_to(ef, "std::collections::HashSet::<T, S, A>::insert"):
-        lv = C.trace(ef, t["args"][1], transparent=lambda tt: C.is_transparent(tt, ABSPATH_VIEWS))
-        if has_param(lv, ef, "file"):
+    for bb, t in inserts:
+        if key_is_file(t):
             ctx.ok("dedup key is the file parameter", site=ctx.site(ef, bb))
         else:
             ctx.violation(["dedup-key"], "the dedup set is keyed by something other than the file being scheduled", site=ctx.site(ef, bb))
